@@ -154,6 +154,145 @@ theorem C20_sample_rank (all l : List Info) (pre : List Info) (i : Info) (post :
     obtain ⟨j, hj1, hj2⟩ := ih
     exact ⟨j, by simpa [fillRanks] using hj1, hj2⟩
 
+/-- the generation-rank invariant of the collection pass: every collected SampleInfo carries the generation counts
+    its sample was stored with, and absolute_generation_rank = (current counts of its instance) − (those counts) -/
+def RankOk (insts : List Inst) (x : Info) : Prop :=
+  ∃ i, findInst x.inst insts = some i ∧ x.agrank = (i.dgc + i.nwgc) - (x.dgc + x.nwgc)
+
+theorem collectLoop_rankOk (insts : List Inst) (m : Masks) (only : Option Nat) (take : Bool) (max : Int)
+    (l : List Sample) (acc : List Info) (coll : List Inst) (hacc : ∀ x ∈ acc, RankOk insts x) :
+    ∀ x ∈ (collectLoop insts m only take max l acc coll).2.1, RankOk insts x := by
+  induction l generalizing acc coll with
+  | nil => simpa [collectLoop] using hacc
+  | cons s ss ih =>
+    unfold collectLoop
+    by_cases hfull : (acc.length : Int) = max
+    · simp only [hfull, if_true, consKept]; exact ih acc coll hacc
+    · simp only [hfull, if_false]
+      by_cases hsel : selects insts m only s = true
+      · obtain ⟨i, hi⟩ := selects_findInst insts m only s hsel
+        simp only [hsel, if_true, hi]
+        have hacc' : ∀ x ∈ acc ++ [mkInfo s i (collTouch coll s.inst s.kind)], RankOk insts x := by
+          intro x hx
+          rcases List.mem_append.mp hx with h | h
+          · exact hacc x h
+          · simp only [List.mem_singleton] at h
+            subst h
+            exact ⟨i, hi, rfl⟩
+        have := ih (acc ++ [mkInfo s i (collTouch coll s.inst s.kind)]) (collTouch coll s.inst s.kind) hacc'
+        split
+        · exact this
+        · simpa only [consKept] using this
+      · simp only [hsel, Bool.false_eq_true, if_false, consKept]
+        exact ih acc coll hacc
+
+/-- `fillRanks` only writes sample_rank and generation_rank -/
+theorem fillRanks_mem (all l : List Info) (y : Info) (hy : y ∈ fillRanks all l) :
+    ∃ x ∈ l, y.inst = x.inst ∧ y.agrank = x.agrank ∧ y.dgc = x.dgc ∧ y.nwgc = x.nwgc ∧
+      y.grank = x.agrank - (match lastAgrankOf x.inst all with
+        | some r => r
+        | none => 0) := by
+  induction l with
+  | nil => simp [fillRanks] at hy
+  | cons i is ih =>
+    simp only [fillRanks, List.mem_cons] at hy
+    rcases hy with h | h
+    · subst h; exact ⟨i, by simp, rfl, rfl, rfl, rfl, rfl⟩
+    · obtain ⟨x, hx, h1⟩ := ih h
+      exact ⟨x, by simp [hx], h1⟩
+
+/-- `lastAgrankOf h all` is the absolute rank of some sample of instance `h` in the collection (the last one) -/
+theorem lastAgrankOf_mem (h : Nat) (all : List Info) (r : Int) (hr : lastAgrankOf h all = some r) :
+    ∃ z ∈ all, z.inst = h ∧ z.agrank = r := by
+  induction all with
+  | nil => simp [lastAgrankOf] at hr
+  | cons i is ih =>
+    unfold lastAgrankOf at hr
+    cases hl : lastAgrankOf h is with
+    | some r' =>
+      simp only [hl] at hr
+      obtain ⟨z, hz, h1, h2⟩ := ih (by rw [hl]; exact hr)
+      exact ⟨z, by simp [hz], h1, h2⟩
+    | none =>
+      simp only [hl] at hr
+      split at hr
+      · rename_i hi
+        injection hr with hr
+        exact ⟨i, by simp, hi, hr⟩
+      · cases hr
+
+theorem lastAgrankOf_some_of_mem (h : Nat) (all : List Info) (x : Info) (hx : x ∈ all) (hh : x.inst = h) :
+    ∃ r, lastAgrankOf h all = some r := by
+  induction all with
+  | nil => cases hx
+  | cons i is ih =>
+    unfold lastAgrankOf
+    cases hl : lastAgrankOf h is with
+    | some r' => exact ⟨r', rfl⟩
+    | none =>
+      rcases List.mem_cons.mp hx with h1 | h1
+      · subst h1; simp [hh]
+      · obtain ⟨r, hr⟩ := ih h1
+        rw [hl] at hr; cases hr
+
+/-- C20 (ranks): every SampleInfo returned by read/take carries
+    absolute_generation_rank = generations between the sample and the instance's most recent state, and
+    generation_rank = generations between the sample and some (the most recent) sample of the same instance in the
+    returned collection, both computed from the generation counts the samples were stored with (DDS 1.4 §2.2.2.5.1) -/
+theorem C20_generation_ranks (s : St) (max : Int) (m : Masks) (only : Option Nat) (take : Bool) (infos : List Info)
+    (hok : (readOrTake s max m only take).2 = .ok infos) :
+    ∀ y ∈ infos,
+      (∃ i, findInst y.inst s.insts = some i ∧ y.agrank = (i.dgc + i.nwgc) - (y.dgc + y.nwgc)) ∧
+      (∃ z ∈ infos, z.inst = y.inst ∧ y.grank = (z.dgc + z.nwgc) - (y.dgc + y.nwgc)) := by
+  generalize hr : readOrTake s max m only take = r at hok
+  unfold readOrTake collect at hr
+  split at hr
+  · subst hr; cases hok
+  · split at hr
+    · subst hr; cases hok
+    · simp only [] at hr
+      split at hr
+      · subst hr; cases hok
+      · subst hr
+        injection hok with hok
+        subst hok
+        intro y hy
+        have hall := collectLoop_rankOk s.insts m only take max s.samples [] [] (by simp)
+        obtain ⟨x, hx, hinst, hag, hd, hn, hg⟩ := fillRanks_mem _ _ y hy
+        obtain ⟨i, hi, hxa⟩ := hall x hx
+        refine ⟨⟨i, by rw [hinst]; exact hi, by rw [hag, hd, hn]; exact hxa⟩, ?_⟩
+        obtain ⟨r, hr⟩ := lastAgrankOf_some_of_mem x.inst _ x hx rfl
+        obtain ⟨z, hz, hzi, hzr⟩ := lastAgrankOf_mem x.inst _ r hr
+        obtain ⟨iz, hiz, hza⟩ := hall z hz
+        rw [hzi, hi] at hiz
+        injection hiz with hiz
+        subst hiz
+        -- z itself appears (with ranks filled) in the result
+        have : ∃ z' ∈ fillRanks (collectLoop s.insts m only take max s.samples [] []).2.1
+              (collectLoop s.insts m only take max s.samples [] []).2.1,
+              z'.inst = z.inst ∧ z'.dgc = z.dgc ∧ z'.nwgc = z.nwgc := by
+          clear hy hg hr hzr hza hall hx
+          generalize (collectLoop s.insts m only take max s.samples [] []).2.1 = all at hz ⊢
+          suffices ∀ l, z ∈ l → ∃ z' ∈ fillRanks all l, z'.inst = z.inst ∧ z'.dgc = z.dgc ∧ z'.nwgc = z.nwgc from
+            this all hz
+          intro l hl
+          induction l with
+          | nil => cases hl
+          | cons a as ih =>
+            rcases List.mem_cons.mp hl with h | h
+            · subst h
+              unfold fillRanks
+              refine ⟨_, List.mem_cons_self .., ?_, ?_, ?_⟩ <;> rfl
+
+            · obtain ⟨z', hz', h1⟩ := ih h
+              exact ⟨z', by simp [fillRanks, hz'], h1⟩
+        obtain ⟨z', hz', hz'i, hz'd, hz'n⟩ := this
+        refine ⟨z', hz', by rw [hz'i, hzi, hinst], ?_⟩
+        rw [hg, hr, hz'd, hz'n, hd, hn]
+        simp only []
+        rw [hxa, ← hzr, hza]
+        omega
+
 example :
     let q : Qos := { depth := none, maxSamples := none, maxInst := none, maxSpi := none, bySource := false,
                      exclusive := false, minSep := some 0 }
